@@ -60,12 +60,15 @@ def split_behaviour(steps):
     events = []
     last = st0
     for lbl, st in steps[1:]:
-        if lbl[0] not in ('reply', 'cancel') or \
+        if lbl[0] not in ('reply', 'cancel', 'end') or \
                 (events and st['nrep'] == last['nrep'] and
-                 st['cancelled'] == last['cancelled']):
+                 st['cancelled'] == last['cancelled'] and
+                 st.get('ended', 'no') == last.get('ended', 'no')):
             break
         events.append(tuple(lbl))
         last = st
+        if lbl[0] == 'end':
+            break
     outcomes = [tuple(o) for o in _fn_list(last['outcome'])]
     return kinds, events, outcomes, last['closed']
 
@@ -81,7 +84,8 @@ def norm_events(events):
     out = []
     for e in events:
         e = tuple(e)
-        out.append(('reply',) + e if len(e) == 2 and e[0] != 'cancel' else e)
+        out.append(('reply',) + e if len(e) == 2 and
+                   e[0] not in ('cancel', 'end') else e)
     return out
 
 
@@ -159,12 +163,22 @@ def client_replay(kinds, events, version=3, model_outcomes=None,
         sent_ids = set()
         bad_id = False
         cancelled = set()
+        ended = None
         for ev in events:
             if ev[0] == 'cancel':
                 cancelled.add(ev[1])
                 tasks[ev[1]].cancel()
                 loop.run_until_idle()
                 continue
+            if ev[0] == 'end':
+                ended = ev[1]
+                try:
+                    _end_session(w, sftp, script, ended)
+                except (OSError, asyncssh.Error):
+                    pass                # the session was gone already
+                loop.run_until_idle()
+                loop.advance(2.0)           # bounded virtual time
+                break
             mid, rtype = ev[1], ev[2]
             if mid == 99 or mid >= len(ids):
                 rid, tag = UNKNOWN_ID, 99
@@ -176,6 +190,28 @@ def client_replay(kinds, events, version=3, model_outcomes=None,
             _reply_packet(script, rid, tag, rtype)
             loop.run_until_idle()
         res['bad_id'] = bad_id
+        res['ended'] = ended
+        if ended:
+            # every caller still waiting must be resolved now, and a request
+            # made afterwards must fail at once
+            for i, t in enumerate(tasks):
+                if i not in cancelled and not t.done():
+                    res['l1'].append(('EndResolvesAll', f'the session ended '
+                                      f'({ended}) but caller {i} '
+                                      f'({kinds[i]}) is still waiting: no '
+                                      f'reply and no exception'))
+            lt = loop.create_task(sftp.stat(b'/late'))
+            loop.run_until_idle()
+            if not lt.done():
+                lt.cancel()
+                res['l1'].append(('EndResolvesAll', f'a request made after '
+                                  f'the session ended ({ended}) waits '
+                                  f'instead of failing at once'))
+            elif lt.cancelled() or lt.exception() is None:
+                res['l1'].append(('EndResolvesAll', f'a request made after '
+                                  f'the session ended ({ended}) did not '
+                                  f'fail'))
+            bad_id = True       # from here on: like any other end of session
         # ---- observe ----
         obs = []
         for i, t in enumerate(tasks):
@@ -233,7 +269,7 @@ def client_replay(kinds, events, version=3, model_outcomes=None,
                         and not (bad_id and _before_bad(replies, i)):
                     res['l1'].append(('OwnReply', f'caller {i} (status) was '
                                       f'sent FX_OK but got {o}'))
-        if followup and not bad_id:
+        if followup and not bad_id and not ended:
             # no reply carried an id without a table entry: the session must
             # still be alive and give a new caller its own reply
             n1 = len(script.held)
@@ -253,6 +289,11 @@ def client_replay(kinds, events, version=3, model_outcomes=None,
         if model_outcomes is not None and not res['l1']:
             want = [_model_obs(o) for o in model_outcomes]
             got = [_norm_obs(o) for o in obs]
+            if ended:
+                got = [('lost',) if w_ == ('lost',) and
+                       g[0] in ('err', 'other', 'badmsg') and
+                       g != ('cancelled',) else g
+                       for g, w_ in zip(got, want)]
             if want != got:
                 res['diverged'] = f'outcomes: code={got} model={want}'
         res['loop_exceptions'] = [str(x.get('exception') or x.get('message'))
@@ -262,7 +303,9 @@ def client_replay(kinds, events, version=3, model_outcomes=None,
             if not t.done():
                 t.cancel()
         w.end_session(sftp)
-        if loop.exceptions:
+        if loop.exceptions or res.get('ended') in (
+                'conn_lost', 'disconnect', 'oserror', 'brokenpipe'):
+            loop.exceptions.clear()
             sftp_io.drop_world()
     return res
 
@@ -319,6 +362,32 @@ def _model_obs(o):
     if o[0] == 'value':
         return ('value', o[1], o[2])
     return (o[0],)
+
+
+def _end_session(w, sftp, script, how):
+    """Make the SFTP session end in the given way (see SftpProto.tla Ends)"""
+    loop = w.loop
+    ct = [t for t in loop.net.all_transports if t.name == 'c'][-1]
+    st = [t for t in loop.net.all_transports if t.name == 's'][-1]
+    if how == 'exit':
+        sftp.exit()
+    elif how == 'peer_close':
+        script.p.exit(0)
+    elif how == 'eof_mid':
+        script.p.stdout.write(u32(50) + b'\x65\x00')
+        script.p.exit(0)
+    elif how == 'conn_lost':
+        ct.cut()
+    elif how == 'disconnect':
+        # the transport dies with the error the packet layer raises for a
+        # corrupted stream (a DisconnectError, not an SFTPError)
+        ct.cut(asyncssh.MACError('MAC verification failed'))
+    elif how == 'oserror':
+        ct.cut(OSError(5, 'Input/output error'))
+    elif how == 'brokenpipe':
+        ct.cut(BrokenPipeError(32, 'Broken pipe'))
+    else:
+        raise ValueError(how)
 
 
 def _norm_obs(o):
@@ -637,11 +706,18 @@ class FaultyServer(asyncssh.SFTPServer):
         super().__init__(chan, chroot=FaultyServer.root)
         self._enc = {}
 
+    exits = 0               # how often the application's exit() hook ran
+
     @classmethod
     def reset_hooks(cls):
         cls.close_mode = 'ok'
         cls.opened = []
         cls.closes = {}
+        cls.exits = 0
+
+    def exit(self):
+        FaultyServer.exits += 1
+        return super().exit()
 
     def close(self, file_obj):
         cls = FaultyServer
@@ -1458,6 +1534,44 @@ def handle_replay(sw, v, script):
         if never:
             res['diverged'] = (f'{len(never)} opened files were never '
                                f'closed by the end of the session')
+    return res
+
+
+def server_ending_case(sw, v, how, nopen=2):
+    """The session ends while the server holds open handles: the client
+    closes the channel ('close'), sends EOF in the middle of a packet
+    ('eof_mid'), or the connection is aborted ('abort').  Every open file
+    must be closed exactly once and the application's exit() must run once."""
+    FaultyServer.reset_hooks()
+    sess = RawSession(sw, v)
+    res = {'v': v, 'how': how, 'l1': []}
+    for _ in range(nopen):
+        sess.exchange(3, open_body(v, b'f', write=True))
+    sess.exchange(11, sstr(b'd'))
+    if how == 'close':
+        sess.writer.close()
+    elif how == 'eof_mid':
+        sess.writer.write(u32(50) + b'\x05\x00')
+        sess.writer.write_eof()
+    else:
+        sw.conn.abort()
+    sess.loop.run_until_idle()
+    sess.loop.advance(2.0)
+    try:
+        sess.collector.cancel()
+        sess.loop.run_until_idle()
+    except BaseException:               # pylint: disable=broad-except
+        pass
+    counts = [FaultyServer.closes.get(id(o), 0) for o in FaultyServer.opened]
+    res['closes'], res['exits'] = counts, FaultyServer.exits
+    if len(counts) != nopen or any(c != 1 for c in counts):
+        res['l1'].append(('EndClosesHandles', f'session ended ({how}) with '
+                          f'{nopen} files open: close() calls per file '
+                          f'{counts}'))
+    if FaultyServer.exits != 1:
+        res['l1'].append(('EndClosesHandles', f'session ended ({how}): the '
+                          f'application\'s exit() hook ran '
+                          f'{FaultyServer.exits} times'))
     return res
 
 
